@@ -29,18 +29,21 @@ Definition freq_dependent (r : ret) : bool := t_cm r || t_ff r || t_ffgen r || t
 (* the grid the returned pulse is cached for is the one supplied, or (none supplied) one cached on an input *)
 Definition grid_known (cs : list cache) (o : opts) (r : ret) : Prop :=
   exists w, t_grid r = Some w /\ (o_omega o = Some w \/ (o_omega o = None /\ In w (grids_of cs))).
+Definition grids_consulted (cs : list cache) : list nat :=
+  if existsb (fun b => b) (map c_cm cs) then grids_of (compress cs (map c_cm cs)) else grids_of cs.
 
-Lemma finish_ret en lo ro o w r : finish en lo ro o w = ORet r -> t_grid r = Some w.
-Proof. unfold finish. destruct (negb en), (negb lo), (negb ro); intros H; inversion H; reflexivity. Qed.
-Lemma finish_raise en lo ro o w e : finish en lo ro o w = ORaise e -> e = EIndexError \/ e = EShapeError.
-Proof. unfold finish. destruct (negb en), (negb lo), (negb ro); intros H; inversion H; auto. Qed.
+(* The first three theorems hold for every combination of the mechanisms (current code and pre-fix code). *)
+Lemma finish_ret mc en lo ro o w r : finish_gen mc en lo ro o w = ORet r -> t_grid r = Some w.
+Proof. unfold finish_gen. destruct (negb en && _), (negb lo), (negb ro); intros H; inversion H; reflexivity. Qed.
+Lemma finish_raise mc en lo ro o w e : finish_gen mc en lo ro o w = ORaise e -> e = EIndexError \/ e = EShapeError.
+Proof. unfold finish_gen. destruct (negb en && _), (negb lo), (negb ro); intros H; inversion H; auto. Qed.
 
 (* never a frequency-dependent attribute without known frequencies; what is cached is cached for the
    grid that was used *)
-Theorem decide_grid_sound new_ids maps nn cs o r :
-  decide new_ids maps nn cs o = ORet r -> freq_dependent r = true -> grid_known cs o r.
+Theorem decide_grid_sound mc new_ids maps nn cs o r :
+  decide_gen mc new_ids maps nn cs o = ORet r -> freq_dependent r = true -> grid_known cs o r.
 Proof.
-  unfold decide, grid_known.
+  unfold decide_gen, grid_known.
   destruct (is_tfalse (o_ff o) && negb (o_pc o)).
   { intros H; inversion H; subst. discriminate. }
   destruct (o_omega o) as [w|].
@@ -50,7 +53,7 @@ Proof.
     destruct (negb (all_equal_nat gs)).
     { destruct (is_ttrue (o_ff o)); [discriminate|]. destruct (o_pc o); [discriminate|].
       intros H; inversion H; subst; discriminate. }
-    destruct (is_tnone (o_ff o) && (negb (equal_n_opers maps) || negb any_cm)).
+    destruct (is_tnone (o_ff o) && _ && _).
     { intros H; inversion H; subst; discriminate. }
     destruct gs as [|w gs'] eqn:E.
     { intros H; inversion H; subst; discriminate. }
@@ -60,20 +63,19 @@ Proof.
 Qed.
 
 (* the two documented ValueErrors are raised only when no frequencies were supplied and the cached grids
-   are unknown or inconsistent; any other exception of the model is one of the two unintended crashes *)
-Definition grids_consulted (cs : list cache) : list nat :=
-  if existsb (fun b => b) (map c_cm cs) then grids_of (compress cs (map c_cm cs)) else grids_of cs.
-Theorem decide_raise_sound new_ids maps nn cs o e :
-  decide new_ids maps nn cs o = ORaise e ->
+   are unknown or inconsistent; any other exception of the decision model is one of the two crashes of
+   the row bookkeeping (excluded for the current code by [masks_consistent] below) *)
+Theorem decide_raise_sound mc new_ids maps nn cs o e :
+  decide_gen mc new_ids maps nn cs o = ORaise e ->
   ((e = EForced /\ o_ff o = TTrue) \/ (e = ENoFreqPC /\ o_pc o = true)) /\ o_omega o = None /\ all_equal_nat (grids_consulted cs) = false
   \/ e = EIndexError \/ e = EShapeError.
 Proof.
-  unfold decide, grids_consulted.
+  unfold decide_gen, grids_consulted.
   destruct (is_tfalse (o_ff o) && negb (o_pc o)); [discriminate|].
   destruct (o_omega o) as [w|].
   - intros H. right. eapply finish_raise; eauto.
   - destruct (all_equal_nat _) eqn:E; simpl.
-    + destruct (is_tnone (o_ff o) && _); [discriminate|].
+    + destruct (is_tnone (o_ff o) && _ && _); [discriminate|].
       destruct (if existsb _ _ then _ else _); [discriminate|].
       intros H. right. eapply finish_raise; eauto.
     + destruct (o_ff o) eqn:Eff; simpl.
@@ -83,82 +85,90 @@ Proof.
 Qed.
 
 (* correlations: on the atomic path they are available whenever requested *)
-Theorem decide_pc_atomic new_ids maps nn cs o r :
-  decide new_ids maps nn cs o = ORet r -> t_path r = PAtomic -> t_pc r = o_pc o /\ t_pcgen r = (o_pc o && o_gen o).
+Theorem decide_pc_atomic mc new_ids maps nn cs o r :
+  decide_gen mc new_ids maps nn cs o = ORet r -> t_path r = PAtomic -> t_pc r = o_pc o /\ t_pcgen r = (o_pc o && o_gen o).
 Proof.
-  unfold decide.
+  unfold decide_gen.
   destruct (is_tfalse (o_ff o) && negb (o_pc o)). { intros H; inversion H; subst; discriminate. }
-  assert (F : forall w, finish (equal_n_opers maps) (length (unique_ids maps) =? length new_ids)
+  assert (F : forall w, finish_gen mc (equal_n_opers maps) (length (unique_ids maps) =? length new_ids)
                  (forallb (fun x => count_true (fst x) =? snd x) (combine (present maps) nn)) o w = ORet r ->
               t_path r = PAtomic -> t_pc r = o_pc o /\ t_pcgen r = (o_pc o && o_gen o)).
-  { intros w. unfold finish. destruct (negb _); [intros H; inversion H; subst; discriminate|].
+  { intros w. unfold finish_gen. destruct (negb _ && _); [intros H; inversion H; subst; discriminate|].
     destruct (negb _); [discriminate|]. destruct (negb _); [discriminate|].
     intros H; inversion H; subst; auto. }
   destruct (o_omega o) as [w|]; [apply F|].
   destruct (negb (all_equal_nat _)).
   { destruct (is_ttrue (o_ff o)); [discriminate|]. destruct (o_pc o); [discriminate|].
     intros H; inversion H; subst; discriminate. }
-  destruct (is_tnone (o_ff o) && _). { intros H; inversion H; subst; discriminate. }
+  destruct (is_tnone (o_ff o) && _ && _). { intros H; inversion H; subst; discriminate. }
   destruct (if existsb _ _ then _ else _); [intros H; inversion H; subst; discriminate|]. apply F.
 Qed.
 
+(* CURRENT code (mechanism m_pc_general): whenever correlations are requested and a pulse is returned, they are there *)
+Theorem decide_pc_current new_ids maps nn cs o r :
+  decide new_ids maps nn cs o = ORet r -> o_pc o = true -> t_pc r = true.
+Proof.
+  unfold decide, decide_gen. intros H Hpc. revert H. rewrite Hpc. rewrite andb_false_r.
+  assert (F : forall w, finish_gen current (equal_n_opers maps) (length (unique_ids maps) =? length new_ids)
+                 (forallb (fun x => count_true (fst x) =? snd x) (combine (present maps) nn)) o w = ORet r -> t_pc r = true).
+  { intros w. unfold finish_gen. rewrite Hpc. simpl. rewrite andb_false_r.
+    destruct (negb _); [discriminate|]. destruct (negb _); [discriminate|].
+    intros H; inversion H; subst; reflexivity. }
+  destruct (o_omega o) as [w|]; [apply F|].
+  destruct (all_equal_nat (if existsb _ _ then _ else _)) eqn:E; simpl.
+  2:{ destruct (is_ttrue (o_ff o)); discriminate. }
+  rewrite andb_false_r. simpl.
+  destruct (if existsb _ _ then _ else _); [discriminate E|apply F].
+Qed.
+
+(* the two crashes of the row bookkeeping need inconsistent masks *)
+Definition lens_ok (new_ids : list string) (maps : list (list (string * string))) : bool :=
+  length (unique_ids maps) =? length new_ids.
+Definition rows_ok (maps : list (list (string * string))) (nn : list nat) : bool :=
+  forallb (fun x => count_true (fst x) =? snd x) (combine (present maps) nn).
+Lemma finish_no_crash mc en o w e : finish_gen mc en true true o w <> ORaise e.
+Proof. unfold finish_gen. destruct (negb en && _); simpl; discriminate. Qed.
+Theorem decide_crash_needs_bad_masks mc new_ids maps nn cs o e :
+  decide_gen mc new_ids maps nn cs o = ORaise e -> e = EIndexError \/ e = EShapeError ->
+  lens_ok new_ids maps = false \/ rows_ok maps nn = false.
+Proof.
+  unfold decide_gen. fold (lens_ok new_ids maps). fold (rows_ok maps nn).
+  destruct (lens_ok new_ids maps); [|auto]. destruct (rows_ok maps nn); [|auto].
+  intros H He. exfalso. revert H.
+  destruct (is_tfalse (o_ff o) && negb (o_pc o)); [discriminate|].
+  destruct (o_omega o) as [w|]; [apply finish_no_crash|].
+  destruct (negb (all_equal_nat _)).
+  { destruct (is_ttrue (o_ff o)). intros H; inversion H; subst; destruct He; discriminate.
+    destruct (o_pc o); [|discriminate]. intros H; inversion H; subst; destruct He; discriminate. }
+  destruct (is_tnone (o_ff o) && _ && _); [discriminate|].
+  destruct (if existsb _ _ then _ else _); [discriminate|apply finish_no_crash].
+Qed.
+
+(* FULL decision soundness of the current code, given consistent masks (proved for every result of the
+   Hamiltonian concatenation of well-formed pulses in section 5) *)
+Theorem decide_sound_current new_ids maps nn cs o :
+  lens_ok new_ids maps = true -> rows_ok maps nn = true ->
+  match decide new_ids maps nn cs o with
+  | ORaise e => (e = EForced \/ e = ENoFreqPC) /\ o_omega o = None /\ all_equal_nat (grids_consulted cs) = false
+  | ORet r => (freq_dependent r = true -> grid_known cs o r) /\ (o_pc o = true -> t_pc r = true)
+  | OCopy => True
+  end.
+Proof.
+  intros Hl Hr. destruct (decide new_ids maps nn cs o) as [e| |r] eqn:E; auto.
+  - destruct (decide_raise_sound current _ _ _ _ _ _ E) as [([[-> _]|[-> _]] & H2 & H3)|Hc]; auto.
+    destruct (decide_crash_needs_bad_masks current _ _ _ _ _ _ E Hc); congruence.
+  - split. apply (decide_grid_sound current _ _ _ _ _ _ E). apply (decide_pc_current _ _ _ _ _ _ E).
+Qed.
+
 (* the full soundness statement of the property for the decision logic *)
-Definition decision_sound_stmt : Prop :=
+Definition decision_sound_stmt (mc : mech) : Prop :=
   forall new_ids maps nn cs o,
-    match decide new_ids maps nn cs o with
+    match decide_gen mc new_ids maps nn cs o with
     | ORaise e => (e = EForced \/ e = ENoFreqPC) /\ o_omega o = None /\ all_equal_nat (grids_consulted cs) = false
+                  \/ e = EIndexError \/ e = EShapeError
     | ORet r => (freq_dependent r = true -> grid_known cs o r) /\ (o_pc o = true -> t_pc r = true)
     | OCopy => True
     end.
-
-(* ---- witnesses: operators are tagged by numbers (1 = X/2, 2 = Y/2, 3 = Z/2), coefficients are integers ---- *)
-Definition wE (o : nat) (s : string) (r : list Z) : entry nat Z := mkEntry o s r.
-Definition wP (c : list (entry nat Z)) (n : list (entry nat Z)) : pulse nat Z := mkPulse 2 0 (mkHam 1 c) (mkHam 1 n) [1%Z].
-Definition w_outcome := concatenate_outcome nat Z Nat.eqb Z.eqb 0%Z.
-Definition no_cache := mkCache None false false.
-
-(* (i) disjoint noise-operator sets *)
-Definition wit_disjoint : list (pulse nat Z) :=
-  [wP [wE 1 "A" [1%Z]] [wE 3 "N" [1%Z]]; wP [wE 2 "B" [1%Z]] [wE 1 "M" [1%Z]]].
-(* (ii) identifier N on Z, X, Z: the mapping of the third pulse stays {N: N} *)
-Definition wit_stale : list (pulse nat Z) :=
-  [wP [wE 1 "A" [1%Z]] [wE 3 "N" [1%Z]]; wP [wE 2 "A" [1%Z]] [wE 1 "N" [1%Z]]; wP [wE 1 "A" [1%Z]] [wE 3 "N" [1%Z]]].
-(* (iii) a shared noise operator, equal grids cached (no control matrix), calc_filter_function = None *)
-Definition wit_shared : list (pulse nat Z) :=
-  [wP [wE 1 "A" [1%Z]] [wE 3 "N" [1%Z]]; wP [wE 2 "B" [1%Z]] [wE 3 "N" [1%Z]]].
-Definition omega_only := mkCache (Some 0) false false.
-(* (iv) stale mapping together with a shared operator: boolean mask of the wrong length *)
-Definition wit_stale_shared : list (pulse nat Z) :=
-  [wP [wE 1 "A" [1%Z]] [wE 2 "M" [1%Z]; wE 3 "N" [1%Z]]; wP [wE 2 "A" [1%Z]] [wE 2 "M" [1%Z]; wE 1 "N" [1%Z]];
-   wP [wE 1 "A" [1%Z]] [wE 2 "M" [1%Z]; wE 3 "N" [1%Z]]].
-
-Definition pc_silently_missing (ps : list (pulse nat Z)) (cs : list cache) (o : opts) : Prop :=
-  o_pc o = true /\ exists r, w_outcome ps cs o = ORet r /\ t_pc r = false.
-
-Theorem decision_pc_refuted_disjoint :
-  pc_silently_missing wit_disjoint [no_cache; no_cache] (mkOpts TNone (Some 0) false true).
-Proof. split; [reflexivity|]. eexists; split; [vm_compute; reflexivity|reflexivity]. Qed.
-Theorem decision_pc_refuted_stale_mapping :
-  pc_silently_missing wit_stale [no_cache; no_cache; no_cache] (mkOpts TNone (Some 0) false true).
-Proof. split; [reflexivity|]. eexists; split; [vm_compute; reflexivity|reflexivity]. Qed.
-Theorem decision_pc_refuted_no_control_matrix :
-  pc_silently_missing wit_shared [omega_only; omega_only] (mkOpts TNone None false true).
-Proof. split; [reflexivity|]. eexists; split; [vm_compute; reflexivity|reflexivity]. Qed.
-(* the same inputs with a control matrix cached do yield the correlations: the witness is not vacuous *)
-Example decision_pc_available_with_control_matrix :
-  exists r, w_outcome wit_shared [mkCache (Some 0) true true; omega_only] (mkOpts TNone None false true) = ORet r /\ t_pc r = true.
-Proof. eexists; split; [vm_compute; reflexivity|reflexivity]. Qed.
-Theorem decision_crash_refuted :
-  w_outcome wit_stale_shared [no_cache; no_cache; no_cache] (mkOpts TTrue (Some 0) false false) = ORaise EIndexError.
-Proof. vm_compute. reflexivity. Qed.
-
-Theorem decision_sound_refuted : ~ decision_sound_stmt.
-Proof.
-  intros H.
-  (* the data of witness (iii) as seen by [decide] *)
-  specialize (H ["N"%string] [[("N", "N")]; [("N", "N")]]%string [1; 1] [omega_only; omega_only] (mkOpts TNone None false true)).
-  vm_compute in H. destruct H as [_ H]. specialize (H eq_refl). discriminate.
-Qed.
 
 (* ================================================================================================ *)
 (* 2. sorting by identifier                                                                           *)
@@ -199,6 +209,41 @@ Proof.
   destruct Hh as [|v l' Hv]; simpl; constructor. exact Hv.
 Qed.
 End SortFacts.
+
+(* lists of identifiers *)
+Lemma mem_str_in s l : mem_str s l = true <-> In s l.
+Proof.
+  unfold mem_str. rewrite existsb_exists. split.
+  - intros (x & Hx & E). apply String.eqb_eq in E. subst; auto.
+  - intros H. exists s. split; auto. apply String.eqb_refl.
+Qed.
+Lemma mem_str_false s l : mem_str s l = false <-> ~ In s l.
+Proof. rewrite <- mem_str_in. destruct (mem_str s l); split; congruence. Qed.
+Lemma has_dup_nodup l : has_dup_str l = false -> NoDup l.
+Proof.
+  induction l as [|x l IH]; simpl; intros H. constructor.
+  apply orb_false_iff in H. destruct H as [H1 H2]. constructor; auto. apply mem_str_false; assumption.
+Qed.
+Lemma has_dup_true l : has_dup_str l = true -> ~ NoDup l.
+Proof.
+  induction l as [|x l IH]; simpl; intros H N. discriminate.
+  inversion N; subst. apply orb_true_iff in H. destruct H as [H|H].
+  - apply mem_str_in in H. contradiction.
+  - apply IH; assumption.
+Qed.
+Lemma nodup_str_in s l : In s (nodup_str l) <-> In s l.
+Proof.
+  induction l as [|x l IH]; simpl. tauto.
+  destruct (mem_str x l) eqn:E.
+  - rewrite IH. split; auto. intros [->|H]; auto. apply mem_str_in; assumption.
+  - simpl. rewrite IH. tauto.
+Qed.
+Lemma nodup_str_nodup l : NoDup (nodup_str l).
+Proof.
+  induction l as [|x l IH]; simpl. constructor.
+  destruct (mem_str x l) eqn:E; auto. constructor; auto.
+  rewrite nodup_str_in. apply mem_str_false; assumption.
+Qed.
 
 (* bisect on the cumulative operator counts recovers the pulse position *)
 Lemma bisect_accumulate : forall (counts : list nat) acc ind,
@@ -323,7 +368,7 @@ Proof.
       * destruct (String.eqb_spec (e_id (snd u)) (e_id (snd pe1))); auto.
 Qed.
 Theorem concat_rejects_oper_ids k hs : oper_ids_clash hs = true -> concatenate_hamiltonian k hs = inl (EOperIds k).
-Proof. intros H. unfold Concat.concatenate_hamiltonian. rewrite H. reflexivity. Qed.
+Proof. intros H. unfold Concat.concatenate_hamiltonian, Concat.concatenate_hamiltonian_gen. rewrite H. reflexivity. Qed.
 
 (* ---- rows ---- *)
 Definition inferable (row : list (option coef)) : bool :=
@@ -410,21 +455,22 @@ Definition sorted_uniq (hs : list ham) := sort_by (new_id hs) (uniq hs).
 
 (* structure of a successful result *)
 Lemma concat_result k hs r : concatenate_hamiltonian k hs = inr r ->
-  oper_ids_clash hs = false /\
+  oper_ids_clash hs = false /\ has_dup_str (map (new_id hs) (uniq hs)) = false /\
   r_ops r = map (fun u => e_op (snd u)) (sorted_uniq hs) /\
   r_ids r = map (new_id hs) (sorted_uniq hs) /\
   Forall2 (fun u row => complete_row k (row_of hs (e_op (snd u))) = Some row) (sorted_uniq hs) (r_rows r) /\
-  r_map r = mappings_from oper coef oeqb hs 0 hs.
+  r_map r = mappings_from oper coef oeqb current hs 0 hs.
 Proof.
-  unfold Concat.concatenate_hamiltonian. destruct (oper_ids_clash hs); [discriminate|].
+  unfold Concat.concatenate_hamiltonian, Concat.concatenate_hamiltonian_gen. destruct (oper_ids_clash hs); [discriminate|].
+  simpl. destruct (has_dup_str _); [discriminate|].
   fold (sorted_uniq hs).
   destruct (all_some _) as [rows|] eqn:E; [|discriminate].
   intros H; inversion H; subst; simpl. repeat split; auto.
   apply (all_some_forall2 (fun u => complete_row k (row_of hs (e_op (snd u))))). exact E.
 Qed.
 
-Lemma mappings_keys hs : forall l p,
-  map (map fst) (mappings_from oper coef oeqb hs p l) = map (fun h => map (@e_id oper coef) (h_entries h)) l.
+Lemma mappings_keys mc hs : forall l p,
+  map (map fst) (mappings_from oper coef oeqb mc hs p l) = map (fun h => map (@e_id oper coef) (h_entries h)) l.
 Proof.
   induction l as [|h l IH]; intros p; simpl. reflexivity.
   f_equal; [|apply IH]. unfold mapping_of. rewrite map_map. reflexivity.
@@ -436,8 +482,8 @@ Theorem concat_hamiltonian_denote k hs r : concatenate_hamiltonian k hs = inr r 
   NoDup (r_ops r) /\
   (forall pe, In pe (flatten hs) -> In (e_op (snd pe)) (r_ops r)) /\
   (forall o, In o (r_ops r) -> exists pe, In pe (flatten hs) /\ e_op (snd pe) = o) /\
-  (* identifiers: sorted *)
-  Sorted (fun a b => String.leb a b = true) (r_ids r) /\
+  (* identifiers: sorted, no identifier twice *)
+  Sorted (fun a b => String.leb a b = true) (r_ids r) /\ NoDup (r_ids r) /\
   (* coefficients: per operator, the windows of the pulses one after another *)
   Forall2 (fun o row => exists c, row = List.concat (map (window c o) hs) /\ (k = Control -> c = czero) /\
                                   (k = Noise -> has_none (row_of hs o) = true -> somes (row_of hs o) <> [] ->
@@ -446,9 +492,9 @@ Theorem concat_hamiltonian_denote k hs r : concatenate_hamiltonian k hs = inr r 
   (* one identifier mapping per pulse, defined on exactly the identifiers of that pulse *)
   map (map fst) (r_map r) = map (fun h => map (@e_id oper coef) (h_entries h)) hs.
 Proof.
-  intros H. destruct (concat_result k hs r H) as (Hc & Ho & Hi & Hr & Hm).
+  intros H. destruct (concat_result k hs r H) as (Hc & Hd & Ho & Hi & Hr & Hm).
   assert (Hperm : Permutation (sorted_uniq hs) (uniq hs)) by apply sort_by_perm.
-  split; [|split; [|split; [|split; [|split]]]].
+  split; [|split; [|split; [|split; [|split; [|split]]]]].
   - rewrite Ho. apply (Permutation_NoDup (l := map (fun u => e_op (snd u)) (uniq hs))).
     + apply Permutation_map. symmetry. exact Hperm.
     + apply uniq_nodup.
@@ -457,6 +503,9 @@ Proof.
   - intros o Hin. rewrite Ho in Hin. apply in_map_iff in Hin. destruct Hin as (u & Eu & Hu).
     exists u. split; auto. apply uniq_sub. apply (Permutation_in u Hperm). exact Hu.
   - rewrite Hi. apply sorted_map. apply sort_by_sorted.
+  - rewrite Hi. apply (Permutation_NoDup (l := map (new_id hs) (uniq hs))).
+    + apply Permutation_map. symmetry. exact Hperm.
+    + apply has_dup_nodup. exact Hd.
   - rewrite Ho. clear -Hr oeqb_spec. induction Hr as [|u row us rows Hu Hr IH]; simpl; constructor; auto.
     destruct (complete_row_spec _ _ _ Hu) as (c & E & Hc & Hn).
     exists c. split; [|split]; auto. rewrite E. apply fill_row_of.
@@ -465,21 +514,25 @@ Qed.
 
 (* ---- success and rejection, completely characterised ---- *)
 Theorem concat_succeeds k hs :
-  oper_ids_clash hs = false ->
+  oper_ids_clash hs = false -> has_dup_str (map (new_id hs) (uniq hs)) = false ->
   (k = Control \/ forall u, In u (uniq hs) -> inferable (row_of hs (e_op (snd u))) = true) ->
   exists r, concatenate_hamiltonian k hs = inr r.
 Proof.
-  intros Hc Hk. unfold Concat.concatenate_hamiltonian. rewrite Hc. cbv zeta.
+  intros Hc Hd Hk. unfold Concat.concatenate_hamiltonian, Concat.concatenate_hamiltonian_gen. rewrite Hc, Hd. simpl. cbv zeta.
   destruct (all_some_exists (fun u => complete_row k (row_of hs (e_op (snd u)))) (sort_by (new_id hs) (uniq hs))) as (rows & E).
   - intros u Hu. apply complete_row_some. destruct Hk as [->|Hk]; [left; reflexivity|right].
     apply Hk. apply (Permutation_in u (sort_by_perm (new_id hs) (uniq hs))). exact Hu.
   - rewrite E. eexists; reflexivity.
 Qed.
+Theorem concat_rejects_dup_ids k hs :
+  oper_ids_clash hs = false -> has_dup_str (map (new_id hs) (uniq hs)) = true ->
+  concatenate_hamiltonian k hs = inl (EDupIds k).
+Proof. intros Hc Hd. unfold Concat.concatenate_hamiltonian, Concat.concatenate_hamiltonian_gen. rewrite Hc, Hd. reflexivity. Qed.
 Theorem concat_rejects_no_infer hs u :
-  oper_ids_clash hs = false -> In u (uniq hs) -> inferable (row_of hs (e_op (snd u))) = false ->
+  oper_ids_clash hs = false -> has_dup_str (map (new_id hs) (uniq hs)) = false -> In u (uniq hs) -> inferable (row_of hs (e_op (snd u))) = false ->
   concatenate_hamiltonian Noise hs = inl ENoInfer.
 Proof.
-  intros Hc Hu Hi. unfold Concat.concatenate_hamiltonian. rewrite Hc. cbv zeta.
+  intros Hc Hd Hu Hi. unfold Concat.concatenate_hamiltonian, Concat.concatenate_hamiltonian_gen. rewrite Hc, Hd. simpl. cbv zeta.
   rewrite (all_some_none (fun u => complete_row Noise (row_of hs (e_op (snd u)))) _ u).
   - reflexivity.
   - apply (Permutation_in u (Permutation_sym (sort_by_perm (new_id hs) (uniq hs)))). exact Hu.
@@ -502,139 +555,163 @@ Example concat_example_succeeds :
   concatenate_hamiltonian nat Z Nat.eqb Z.eqb 0%Z Noise ex_hams2 = inr ex_result2.
 Proof. reflexivity. Qed.
 
-(* ================================================================================================ *)
-(* 4. identifier mapping and row bookkeeping: what the property needs and where the pinned code fails  *)
-(* every identifier of every input should be mapped to the identifier its operator carries in the result *)
-Definition lookup (s : string) (m : list (string * string)) : option string :=
-  option_map snd (find (fun kv => String.eqb s (fst kv)) m).
-Definition id_of_op (r : hresult nat Z) (o : nat) : option string :=
-  option_map snd (find (fun oi => Nat.eqb o (fst oi)) (combine (r_ops r) (r_ids r))).
-Definition mapping_sound_on (hs : list (ham nat Z)) : Prop :=
-  forall r, concatenate_hamiltonian nat Z Nat.eqb Z.eqb 0%Z Noise hs = inr r ->
-  forall j h e, nth_error hs j = Some h -> In e (h_entries h) ->
-    lookup (e_id e) (nth j (r_map r) []) = id_of_op r (e_op e).
-Definition hams_ZXZ : list (ham nat Z) :=
-  [mkHam 1 [mkEntry 3 "N" [1%Z]]; mkHam 1 [mkEntry 1 "N" [1%Z]]; mkHam 1 [mkEntry 3 "N" [1%Z]]].
-Theorem mapping_refuted : ~ mapping_sound_on hams_ZXZ.
-Proof.
-  intros H. unfold mapping_sound_on in H.
-  specialize (H _ eq_refl 2 (mkHam 1 [mkEntry 3 "N"%string [1%Z]]) (mkEntry 3 "N"%string [1%Z]) eq_refl (or_introl eq_refl)).
-  vm_compute in H. discriminate.
-Qed.
-(* for two pulses the mapping is right on the same kind of clash *)
-Definition hams_ZX : list (ham nat Z) := [mkHam 1 [mkEntry 3 "N"%string [1%Z]]; mkHam 1 [mkEntry 1 "N"%string [1%Z]]].
-Example mapping_sound_two : mapping_sound_on hams_ZX.
-Proof.
-  intros r Hr j h e Hj He. vm_compute in Hr. inversion Hr; subst; clear Hr.
-  destruct j as [|[|j]]; simpl in Hj.
-  - inversion Hj; subst. simpl in He. destruct He as [<-|[]]. reflexivity.
-  - inversion Hj; subst. simpl in He. destruct He as [<-|[]]. reflexivity.
-  - destruct j; discriminate.
-Qed.
-
-(* rows: control_matrix_atomic[i, idx] = pulse.get_control_matrix(omega) must put the control-matrix row of an
-   operator of pulse i into the row of the same operator of the new pulse *)
-Definition rows_sound_on (hs : list (ham nat Z)) : Prop :=
-  forall r, concatenate_hamiltonian nat Z Nat.eqb Z.eqb 0%Z Noise hs = inr r ->
-  forall i h row k, nth_error hs i = Some h ->
-    nth_error (nth i (row_sources (r_ids r) (r_map r)) []) row = Some (Some k) ->
-    option_map (@e_op nat Z) (nth_error (h_entries h) k) = nth_error (r_ops r) row.
-(* identifiers 'X', 'XY': the suffix changes the order ('XY' < 'X_0') *)
-Definition hams_flip : list (ham nat Z) :=
-  [mkHam 1 [mkEntry 3 "X" [1%Z]; mkEntry 2 "XY" [1%Z]]; mkHam 1 [mkEntry 1 "X" [1%Z]; mkEntry 2 "XY" [1%Z]]].
-Theorem row_assignment_refuted : ~ rows_sound_on hams_flip.
-Proof.
-  intros H. unfold rows_sound_on in H.
-  specialize (H _ eq_refl 0 (mkHam 1 [mkEntry 3 "X"%string [1%Z]; mkEntry 2 "XY"%string [1%Z]]) 0 0 eq_refl eq_refl).
-  vm_compute in H. discriminate.
-Qed.
 
 (* ================================================================================================ *)
-(* 5. the proposed repair of the decision logic satisfies the full statement                          *)
-(* (a) `if calc_filter_function is None and not calc_pulse_correlation_FF:` guards the early exit,
-   (b) `if not equal_n_opers and not calc_pulse_correlation_FF:` guards the from-scratch shortcut,
-   (c) identifier mappings updated for every pulse holding the operator and rows placed by identifier, so the
-       two crashes cannot occur.  This is a model of the PROPOSAL, not of the pinned code.                 *)
-Definition finish_fixed (equal_n : bool) (o : opts) (w : nat) : outcome :=
-  if negb equal_n && negb (o_pc o) then ORet (mkRet PScratch true (Some w) true true (o_gen o) false false)
-  else ORet (mkRet PAtomic true (Some w) true true (o_gen o) (o_pc o) (o_pc o && o_gen o)).
-Definition decide_fixed (maps : list (list (string * string))) (cs : list cache) (o : opts) : outcome :=
-  let tp := forallb c_tp cs in
-  if is_tfalse (o_ff o) && negb (o_pc o) then ORet (ham_only tp) else
-  let equal_n := equal_n_opers maps in
-  match o_omega o with
-  | Some w => finish_fixed equal_n o w
-  | None =>
-      let gs := grids_consulted cs in
-      if negb (all_equal_nat gs) then
-        if is_ttrue (o_ff o) then ORaise EForced
-        else if o_pc o then ORaise ENoFreqPC
-        else ORet (ham_only tp)
-      else if is_tnone (o_ff o) && negb (o_pc o) && (negb equal_n || negb (existsb (fun b => b) (map c_cm cs)))
-      then ORet (ham_only tp)
-      else match gs with w :: _ => finish_fixed equal_n o w | [] => ORet (ham_only tp) end
-  end.
-
-Theorem decision_sound_for_proposed_fix maps cs o :
-  match decide_fixed maps cs o with
-  | ORaise e => (e = EForced \/ e = ENoFreqPC) /\ o_omega o = None /\ all_equal_nat (grids_consulted cs) = false
-  | ORet r => (freq_dependent r = true -> grid_known cs o r) /\ (o_pc o = true -> t_pc r = true)
-  | OCopy => True
-  end.
+(* 4. identifier mapping of the current code: every identifier of every pulse is mapped to the identifier
+      its operator carries in the result; consequently the boolean masks of concatenate are consistent     *)
+Lemma NoDup_map_inj {A B} (f : A -> B) : forall l a b, NoDup (map f l) -> In a l -> In b l -> f a = f b -> a = b.
 Proof.
-  unfold decide_fixed.
-  destruct (o_pc o) eqn:Epc; destruct (o_ff o) eqn:Eff; simpl;
-  try (split; [intros E; discriminate E | intros E; discriminate E]).
-  all: destruct (o_omega o) as [w|] eqn:Eom;
-    [ unfold finish_fixed; rewrite Epc; simpl;
-      try (destruct (equal_n_opers maps); simpl);
-      (split; [intros _; exists w; split; [reflexivity | left; assumption] | intros E; try reflexivity; discriminate E])
-    | ].
-  all: destruct (all_equal_nat (grids_consulted cs)) eqn:Eg; simpl; auto;
-       try (split; [intros E; discriminate E | intros E; discriminate E]).
-  all: try (destruct (negb (equal_n_opers maps) || negb (existsb (fun b => b) (map c_cm cs))); simpl;
-            try (split; [intros E; discriminate E | intros E; discriminate E])).
-  all: destruct (grids_consulted cs) as [|w gs] eqn:Egs; [discriminate Eg|];
-       unfold finish_fixed; rewrite Epc; simpl; try (destruct (equal_n_opers maps); simpl);
-       (split; [intros _; exists w; split; [reflexivity | right; split; [assumption|]] | intros E; try reflexivity; discriminate E]).
-  all: unfold grids_consulted in Egs;
-       assert (Hin : In w (w :: gs)) by (left; reflexivity); rewrite <- Egs in Hin;
-       destruct (existsb (fun b => b) (map c_cm cs)); [eapply grids_compress_in; eauto | assumption].
+  induction l as [|x l IH]; intros a b N Ha Hb E; simpl in *. contradiction.
+  inversion N as [|? ? Hx Hl]; subst.
+  destruct Ha as [->|Ha], Hb as [->|Hb]; auto.
+  - exfalso. apply Hx. rewrite E. apply in_map. assumption.
+  - exfalso. apply Hx. rewrite <- E. apply in_map. assumption.
+Qed.
+Lemma combine_map {A B C} (f : A -> B) (g : A -> C) : forall l, combine (map f l) (map g l) = map (fun x => (f x, g x)) l.
+Proof. induction l; simpl; congruence. Qed.
+(* number of elements of a duplicate-free list [us] that belong to a duplicate-free sublist [pid] *)
+Lemma count_members (pid us : list string) : NoDup pid -> NoDup us -> incl pid us ->
+  count_true (map (fun u => mem_str u pid) us) = length pid.
+Proof.
+  intros Np Nu Hincl. unfold count_true.
+  assert (E : filter (fun b : bool => b) (map (fun u => mem_str u pid) us) = map (fun u => mem_str u pid) (filter (fun u => mem_str u pid) us)).
+  { clear. induction us as [|u us IH]; simpl. reflexivity. destruct (mem_str u pid) eqn:E; simpl; rewrite ?E, IH; reflexivity. }
+  rewrite E, map_length.
+  apply Nat.le_antisymm.
+  - apply NoDup_incl_length. apply NoDup_filter; assumption.
+    intros x Hx. apply filter_In in Hx. apply mem_str_in. tauto.
+  - apply NoDup_incl_length. assumption.
+    intros x Hx. apply filter_In. split. apply Hincl; assumption. apply mem_str_in; assumption.
 Qed.
 
-(* ================================================================================================ *)
-(* 6. where exactly the identifier mapping is right: for the pulse that holds the operator FIRST      *)
-Section FirstHolder.
+Section Mapping.
 Variables oper coef : Type.
 Variable oeqb : oper -> oper -> bool.
 Variable ceqb : coef -> coef -> bool.
 Variable czero : coef.
 Hypothesis oeqb_spec : forall a b, reflect (a = b) (oeqb a b).
 
-(* the value the model (= the code) stores in pulse_identifier_mapping[p] for the entry e of pulse p *)
-Definition mapped_id (hs : list (ham oper coef)) (p : nat) (e : entry oper coef) : string :=
-  if id_clash oper coef oeqb hs (e_id e) &&
-     (match first_pulse oper coef oeqb hs (e_op e) with Some q => q =? p | None => false end)
-  then suffix (e_id e) p else e_id e.
-Lemma mapping_of_is_mapped_id hs p h : mapping_of oper coef oeqb hs p h = map (fun e => (e_id e, mapped_id hs p e)) (h_entries h).
-Proof. reflexivity. Qed.
+Notation entry := (entry oper coef).
+Notation ham := (ham oper coef).
+Notation flatten := (flatten oper coef).
+Notation flatten_from := (flatten_from oper coef).
+Notation uniq := (uniq oper coef oeqb).
+Notation new_id := (new_id oper coef oeqb).
+Notation oper_ids_clash := (oper_ids_clash oper coef oeqb).
+Notation mapped_id := (mapped_id oper coef oeqb).
+Notation mappings_from := (mappings_from oper coef oeqb).
+Notation first_pulse := (first_pulse oper coef oeqb).
+Notation concatenate_hamiltonian := (concatenate_hamiltonian oper coef oeqb ceqb czero).
 
-Theorem mapping_right_for_first_holder hs p e :
-  oper_ids_clash oper coef oeqb hs = false -> In (p, e) (flatten oper coef hs) ->
-  first_pulse oper coef oeqb hs (e_op e) = Some p ->
-  exists u, In u (uniq oper coef oeqb hs) /\ e_op (snd u) = e_op e /\ mapped_id hs p e = new_id oper coef oeqb hs u.
+Lemma rep_found hs p e : In (p, e) (flatten hs) ->
+  exists u, find (fun u => oeqb (e_op e) (e_op (snd u))) (uniq hs) = Some u /\ In u (uniq hs) /\ e_op (snd u) = e_op e.
 Proof.
-  intros Hc Hin Hf. pose proof Hf as Hf'. unfold first_pulse in Hf.
-  destruct (find (fun u => oeqb (e_op e) (e_op (snd u))) (uniq oper coef oeqb hs)) as [u|] eqn:E; [|discriminate].
-  simpl in Hf. inversion Hf as [Hp]. apply find_some in E. destruct E as [Hu Ho].
-  destruct (oeqb_spec (e_op e) (e_op (snd u))) as [Eo|]; [|discriminate].
-  assert (Ei : e_id (snd u) = e_id e).
-  { destruct (String.eqb_spec (e_id (snd u)) (e_id e)) as [|N]; auto. exfalso.
-    assert (C : oper_ids_clash oper coef oeqb hs = true).
-    { eapply oper_ids_clash_spec; eauto. exists u, (p, e). repeat split; auto.
-      eapply uniq_sub; eauto. }
-    congruence. }
-  exists u. split; [exact Hu|]. split; [symmetry; exact Eo|].
-  unfold mapped_id, new_id. rewrite Hf'. cbv iota. rewrite Hp, Nat.eqb_refl, andb_true_r, Ei. reflexivity.
+  intros Hin. destruct (find (fun u => oeqb (e_op e) (e_op (snd u))) (uniq hs)) as [u|] eqn:E.
+  - exists u. split; auto. apply find_some in E. destruct E as [Hu Ho]. split; auto.
+    destruct (oeqb_spec (e_op e) (e_op (snd u))); [auto|discriminate].
+  - exfalso. destruct (uniq_complete oper coef oeqb oeqb_spec hs (p, e) Hin) as (u & Hu & Eu).
+    pose proof (find_none _ _ E u Hu) as N. simpl in N, Eu. rewrite Eu in N.
+    destruct (oeqb_spec (e_op e) (e_op e)); [discriminate|auto].
 Qed.
-End FirstHolder.
+Lemma rep_id hs p e u : oper_ids_clash hs = false -> In (p, e) (flatten hs) -> In u (uniq hs) ->
+  e_op (snd u) = e_op e -> e_id (snd u) = e_id e.
+Proof.
+  intros Hc Hin Hu Eo. destruct (String.eqb_spec (e_id (snd u)) (e_id e)) as [|N]; auto. exfalso.
+  assert (C : oper_ids_clash hs = true).
+  { eapply oper_ids_clash_spec; eauto. exists u, (p, e). repeat split; auto. eapply uniq_sub; eauto. }
+  congruence.
+Qed.
+(* CURRENT code: the identifier stored for entry e of ANY pulse is the new identifier of e's operator *)
+Theorem mapped_id_is_new_id hs p e : oper_ids_clash hs = false -> In (p, e) (flatten hs) ->
+  exists u, In u (uniq hs) /\ e_op (snd u) = e_op e /\ mapped_id current hs p e = new_id hs u.
+Proof.
+  intros Hc Hin. destruct (rep_found hs p e Hin) as (u & Ef & Hu & Eo).
+  exists u. split; [exact Hu|]. split; [exact Eo|].
+  unfold Concat.mapped_id, Concat.new_id, Concat.first_pulse. rewrite Ef. simpl.
+  rewrite (rep_id hs p e u Hc Hin Hu Eo). reflexivity.
+Qed.
+(* PRE-FIX code: the same only for the pulse holding the operator first *)
+Theorem mapped_id_prefix_first_holder hs p e : oper_ids_clash hs = false -> In (p, e) (flatten hs) ->
+  first_pulse hs (e_op e) = Some p ->
+  exists u, In u (uniq hs) /\ e_op (snd u) = e_op e /\ mapped_id prefix hs p e = new_id hs u.
+Proof.
+  intros Hc Hin Hf. destruct (rep_found hs p e Hin) as (u & Ef & Hu & Eo).
+  exists u. split; [exact Hu|]. split; [exact Eo|].
+  unfold Concat.first_pulse in Hf. rewrite Ef in Hf. simpl in Hf. inversion Hf as [Hp].
+  unfold Concat.mapped_id, Concat.new_id, Concat.first_pulse. rewrite Ef. simpl. rewrite Hp, Nat.eqb_refl.
+  rewrite (rep_id hs p e u Hc Hin Hu Eo). reflexivity.
+Qed.
+
+(* every identifier of every input pulse is mapped to the identifier its operator carries in the result *)
+Theorem mapping_sound k hs r p e : concatenate_hamiltonian k hs = inr r -> In (p, e) (flatten hs) ->
+  In (e_op e, mapped_id current hs p e) (combine (r_ops r) (r_ids r)).
+Proof.
+  intros H Hin. destruct (concat_result oper coef oeqb ceqb czero k hs r H) as (Hc & Hd & Ho & Hi & _).
+  destruct (mapped_id_is_new_id hs p e Hc Hin) as (u & Hu & Eo & Em).
+  rewrite Ho, Hi, combine_map, Em, <- Eo.
+  apply (in_map (fun x => (e_op (snd x), new_id hs x))).
+  apply (Permutation_in u (Permutation_sym (sort_by_perm (new_id hs) (uniq hs)))). exact Hu.
+Qed.
+
+(* ---- the masks of concatenate ---- *)
+Lemma in_mapped mc hs : forall l p x,
+  In x (List.concat (pulse_ids (mappings_from mc hs p l))) <->
+  exists q e, In (q, e) (flatten_from p l) /\ x = mapped_id mc hs q e.
+Proof.
+  induction l as [|h l IH]; intros p x; simpl.
+  - split; [contradiction|]. intros (q & e & [] & _).
+  - rewrite in_app_iff, nodup_str_in, IH. unfold mapping_of. rewrite map_map. simpl. rewrite in_map_iff.
+    split.
+    + intros [(e & E & He)|(q & e & He & E)].
+      * exists p, e. split; auto. apply in_or_app. left. apply in_map. assumption.
+      * exists q, e. split; auto. apply in_or_app. right. assumption.
+    + intros (q & e & He & E). apply in_app_or in He. destruct He as [He|He].
+      * left. apply in_map_iff in He. destruct He as (e' & E' & He'). injection E' as Ep Ee. subst q e. exists e'. auto.
+      * right. exists q, e. auto.
+Qed.
+
+Theorem lens_ok_current k hs r : concatenate_hamiltonian k hs = inr r -> lens_ok (r_ids r) (r_map r) = true.
+Proof.
+  intros H. destruct (concat_result oper coef oeqb ceqb czero k hs r H) as (Hc & Hd & Ho & Hi & Hr & Hm).
+  destruct (concat_hamiltonian_denote oper coef oeqb ceqb czero oeqb_spec k hs r H) as (_ & _ & _ & _ & Nids & _).
+  unfold lens_ok, unique_ids. apply Nat.eqb_eq.
+  rewrite (Permutation_length (sort_by_perm (fun s => s) _)).
+  assert (Hperm : Permutation (sort_by (new_id hs) (uniq hs)) (uniq hs)) by apply sort_by_perm.
+  apply Nat.le_antisymm.
+  - apply NoDup_incl_length. apply nodup_str_nodup.
+    intros x Hx. apply (proj1 (nodup_str_in _ _)) in Hx. rewrite Hm in Hx. apply (proj1 (in_mapped _ _ _ _ _)) in Hx.
+    destruct Hx as (q & e & He & ->).
+    destruct (mapped_id_is_new_id hs q e Hc He) as (u & Hu & _ & ->).
+    rewrite Hi. apply in_map. apply (Permutation_in u (Permutation_sym Hperm)). exact Hu.
+  - apply NoDup_incl_length. exact Nids.
+    intros x Hx. rewrite Hi in Hx. apply in_map_iff in Hx. destruct Hx as (u & <- & Hu).
+    apply (Permutation_in u Hperm) in Hu.
+    apply (proj2 (nodup_str_in _ _)). rewrite Hm. apply (proj2 (in_mapped _ _ _ _ _)).
+    assert (Hf : In u (flatten hs)) by (eapply uniq_sub; eauto).
+    exists (fst u), (snd u). rewrite <- surjective_pairing. split; [exact Hf|].
+    destruct (mapped_id_is_new_id hs (fst u) (snd u) Hc) as (u' & Hu' & Eo & ->).
+    { rewrite <- surjective_pairing. exact Hf. }
+    f_equal. apply (NoDup_map_inj (fun u => e_op (snd u)) (uniq hs)); auto.
+    eapply uniq_nodup; eauto.
+Qed.
+
+(* within one pulse with duplicate-free identifiers the mapped identifiers are duplicate-free *)
+Lemma mapped_nodup hs p h : oper_ids_clash hs = false -> has_dup_str (map (new_id hs) (uniq hs)) = false ->
+  (forall e, In e (h_entries h) -> In (p, e) (flatten hs)) -> NoDup (map (@e_id oper coef) (h_entries h)) ->
+  NoDup (map (fun e => mapped_id current hs p e) (h_entries h)).
+Proof.
+  intros Hc Hd Hin. induction (h_entries h) as [|e l IH]; simpl; intros N. constructor.
+  inversion N as [|? ? Hx Hl]; subst. constructor.
+  - intros Hm. apply in_map_iff in Hm. destruct Hm as (e' & E & He').
+    destruct (mapped_id_is_new_id hs p e Hc (Hin e (or_introl eq_refl))) as (u & Hu & Eo & Em).
+    destruct (mapped_id_is_new_id hs p e' Hc (Hin e' (or_intror He'))) as (u' & Hu' & Eo' & Em').
+    rewrite Em, Em' in E.
+    assert (Euu : u' = u) by (apply (NoDup_map_inj (new_id hs) (uniq hs)); auto; apply has_dup_nodup; assumption).
+    subst u'. apply Hx.
+    assert (Eid : e_id e' = e_id e).
+    { rewrite <- (rep_id hs p e u Hc (Hin e (or_introl eq_refl)) Hu Eo).
+      rewrite <- (rep_id hs p e' u Hc (Hin e' (or_intror He')) Hu Eo'). reflexivity. }
+    rewrite <- Eid. apply in_map. assumption.
+  - apply IH; auto. intros e' He'. apply Hin. right; assumption.
+Qed.
+End Mapping.
